@@ -19,6 +19,8 @@ type NamedConfig struct {
 	// Negative marks a control configuration where the adversary holds >= 1/3 of the power:
 	// disagreement must be findable there (shows the oracle can fire); it is never a violation.
 	Negative bool
+	// ReplicaOnly marks a placement in which the Byzantine node leads none of the first rounds (see replicaOnlyConfigs).
+	ReplicaOnly bool
 }
 
 func eqTimeouts(t int) [7]int { return [7]int{t, t, t, t, t, t, t} }
@@ -64,7 +66,32 @@ func Configs(quick bool) []NamedConfig {
 	if quick && len(out) > 1 {
 		out = out[:1]
 	}
+	out = append(replicaOnlyConfigs(quick), out...)
 	out = append(fiveNodeConfigs(quick), out...) // the cheap configuration first: a deadline must not cut it
+	return out
+}
+
+// replicaOnlyConfigs: n=4 equal power where the Byzantine node leads NONE of the rounds (rh,0), (rh,1),
+// (rh+1,0), (rh+1,1) and three different honest nodes lead the last three: the adversary is the network plus
+// an amnesiac voter whose signature completes any quorum (the quorum-intersection argument with no leader tricks).
+func replicaOnlyConfigs(quick bool) []NamedConfig {
+	all := allConfigs()
+	probe := New(all[0].Cfg)
+	var out []NamedConfig
+	for _, c := range all {
+		if len(c.Cfg.Powers) != 4 || c.Cfg.Powers[0] != 1 {
+			continue
+		}
+		rh, byz := c.Cfg.BaseRH, c.Cfg.Byz
+		l0, a, b, z := probe.PredictLeader(rh, 0), probe.PredictLeader(rh, 1), probe.PredictLeader(rh+1, 0), probe.PredictLeader(rh+1, 1)
+		if l0 != byz && a != byz && b != byz && z != byz && a != b && b != z && a != z {
+			c.ReplicaOnly = true
+			out = append(out, c)
+			if quick {
+				break
+			}
+		}
+	}
 	return out
 }
 
@@ -295,7 +322,12 @@ func Main(id string) {
 					mu.Unlock()
 				}
 			},
-			Stop: stop,
+			Stop: func() bool {
+				if nc.ReplicaOnly && PartFraction > 0 && r.ExpiredFrac(PartFraction*0.5) {
+					return true // leave at least half of the part's time to the placement in which the Byzantine node leads
+				}
+				return stop()
+			},
 			Priority: func(op int) int {
 				if sc := AllScenarios[op]; sc.L > 0 || sc.J > 0 {
 					return 1
